@@ -351,6 +351,43 @@ fn crash_sweep(h: &History, rep: &mut Report, nested: bool) {
     }
 }
 
+/// the loader reads the block directory in passes (1000 files per pass in the normal build; hook H5
+/// lowers the pass size): a clean image restarted with passes of 1, 2 and 3 files must give the
+/// node the single-pass restart gives - same tip, same chain index, same stored blocks, same
+/// spendable set and reservoirs
+fn batched_restart(h: &History, rep: &mut Report) {
+    let w = &h.tw.w;
+    let image = image_at(&h.journal, h.journal.len());
+    for delete_old in [false, true] {
+        saito_core::core::verif_hooks::set_load_batch(1000);
+        let Ok(mut base) = restart(w, image.clone(), delete_old) else { continue };
+        let bo = base.n.obs();
+        let bfiles: Vec<String> = base.n.io.files().keys().cloned().collect();
+        for pass in [1usize, 2, 3] {
+            saito_core::core::verif_hooks::set_load_batch(pass);
+            let r = restart(w, image.clone(), delete_old);
+            saito_core::core::verif_hooks::set_load_batch(1000);
+            let case = json!({"history": h.label, "files_per_pass": pass, "delete_old_blocks": delete_old, "block_files": image.keys().filter(|k| k.starts_with(BLOCK_DIR)).count()});
+            rep.traces_validated += 1;
+            match r {
+                Err(e) => rep.violate("clean/passes/restart-aborts", format!("ConsensusThread::on_init loading {} file(s) per pass: {}", pass, e), case),
+                Ok(mut r) => {
+                    let o = r.n.obs();
+                    rep.outcome(&format!("passes:{}:{}", pass, if o == bo { "same-node" } else { "different-node" }));
+                    let files: Vec<String> = r.n.io.files().keys().cloned().collect();
+                    if o.tip_hash != bo.tip_hash || o.tip_id != bo.tip_id {
+                        rep.violate("clean/passes/tip-depends-on-pass-size", format!("loading {} file(s) per pass restarts on {}:{}, loading all in one pass on {}:{}", pass, o.tip_id, hx(&o.tip_hash[..6]), bo.tip_id, hx(&bo.tip_hash[..6])), case);
+                    } else if o.lc_index != bo.lc_index || o.utxo != bo.utxo || o.reservoirs != bo.reservoirs {
+                        rep.violate("clean/passes/ledger-depends-on-pass-size", format!("loading {} file(s) per pass: same tip but chain index / spendable set / reservoirs differ from the single-pass restart", pass), case);
+                    } else if files != bfiles {
+                        rep.violate("clean/passes/stored-files-depend-on-pass-size", format!("loading {} file(s) per pass leaves {} files, one pass leaves {}", pass, files.len(), bfiles.len()), case);
+                    }
+                }
+            }
+        }
+    }
+}
+
 /// a history of its own: after the run, an archive peer serves again the blocks the node has
 /// already pruned (heights at or below tip - 2g); then a clean shutdown and restart
 fn pruned_redelivery(h: &History, rep: &mut Report, restart_first: bool) {
@@ -561,6 +598,7 @@ pub fn main(tier: Tier, _replay: Option<String>) -> i32 {
     let res = par_map(&hs, workers(), |_, h| {
         let mut r = rep.child();
         crash_sweep(h, &mut r, nested);
+        batched_restart(h, &mut r);
         pruned_redelivery(h, &mut r, false);
         pruned_redelivery(h, &mut r, true);
         r.transitions += h.journal.len() as u64;
